@@ -546,7 +546,8 @@ def run(pid, tier):
             rep.violation("renderer-fails:%s:%s" % ("+".join(bad), cls), "renderer(s) %s return no rendering for a failed test case whose unexpected output line is %r: %s"
                           % (bad, line, {k: nv.get(k) for k in bad} if nk == "return" else nv),
                           {"kind": "eval", "fn": "render_unexpected_line", "args": [list(line)], "native": [nk, nv], "harness": hd.name})
-        elif nk == "return" and ("\n-want\n" not in "\n" + nv["diff"]["Ok"] or "\n+" not in "\n" + nv["diff"]["Ok"]):
+        elif nk == "return" and ("\n-want\n" not in "\n" + nv["diff"]["Ok"]
+                                 or [len(ln) > 1 or line in (b"", b"\n") for ln in nv["diff"]["Ok"].split("\n") if ln.startswith("+")] != [True]):
             rep.violation("diff-renderer:difference-missing:%s" % cls, "the diff rendering of an unmatched expectation `want` and the unexpected line %r lacks one of them: %r"
                           % (line, nv["diff"]["Ok"]), {"kind": "eval", "fn": "render_unexpected_line", "args": [list(line)], "native": [nk, nv], "harness": hd.name})
         else:
